@@ -404,3 +404,37 @@ func TestPlainVersusAtomicIsARace(t *testing.T) {
 	})
 	mustBeFlagged(t, f, "I5-shared-variable-race", first)
 }
+
+func TestTickerDrivesABackgroundTask(t *testing.T) {
+	ticks := 0
+	f, first := run(t, 1, nil, func(s *sched.Sim, task int) {
+		tk := vtime.NewTicker(10 * time.Millisecond)
+		for i := 0; i < 3; i++ {
+			tk.C.Recv()
+			ticks++
+		}
+		tk.Stop()
+	})
+	mustBeClean(t, f, first)
+	if ticks != 3*seeds {
+		t.Fatalf("got %d ticks, want %d", ticks, 3*seeds)
+	}
+}
+
+func TestOnceValue(t *testing.T) {
+	calls := 0
+	var get func() int
+	f, first := run(t, 4, func() {
+		calls = 0
+		get = vsync.OnceValue(func() int { calls++; vrace.W(1); return 7 })
+	}, func(s *sched.Sim, task int) {
+		if get() != 7 {
+			t.Errorf("wrong value")
+		}
+		vrace.R(1)
+		if calls != 1 {
+			t.Errorf("initialiser ran %d times", calls)
+		}
+	})
+	mustBeClean(t, f, first)
+}
